@@ -115,11 +115,10 @@ impl TryFrom<&str> for FeelYearsAndMonthsDuration {
           is_valid = true;
         }
       }
-      if captures.name("sign").is_some() {
-        total_months = -total_months;
-      }
       if is_valid {
+        // the magnitude must be representable, so that negation and absolute value never overflow
         if let Ok(total_months) = i64::try_from(total_months) {
+          let total_months = if captures.name("sign").is_some() { -total_months } else { total_months };
           return Ok(FeelYearsAndMonthsDuration(total_months));
         }
       }
